@@ -36,7 +36,8 @@ def gen_cases(tier, seed):
         bad = False
         maxchain = 0
         for j in range(nl):
-            cls = r.choice(["file-rel", "file-abs", "file-out", "dir-in", "dir-out", "dir-out-abs", "chain", "chain", "dangling", "cycle", "deep-link"])
+            cls = r.choice(["file-rel", "file-abs", "file-out", "dir-in", "dir-out", "dir-out-abs", "chain", "chain", "dangling", "cycle", "deep-link",
+                            "dir-otherfs", "file-otherfs", "chain-otherfs"])
             nm = "src/L%d" % j if r.random() < 0.6 else "src/sub/L%d" % j
             up = "" if nm.count("/") == 1 else "../"
             if cls == "file-rel":
@@ -51,6 +52,13 @@ def gen_cases(tier, seed):
                 spec.append({"p": nm, "k": "l", "target": up + "../out/od"})
             elif cls == "dir-out-abs":
                 spec.append({"p": nm, "k": "l", "target": "@ROOT@/out/od"})
+            elif cls == "dir-otherfs":
+                spec.append({"p": nm, "k": "l", "target": "@OTHER@/xd"})
+            elif cls == "file-otherfs":
+                spec.append({"p": nm, "k": "l", "target": "@OTHER@/xd/xy"})
+            elif cls == "chain-otherfs":
+                spec.append({"p": "out/hop%d" % j, "k": "l", "target": "@OTHER@/xd/xinner"})
+                spec.append({"p": nm, "k": "l", "target": up + "../out/hop%d" % j})
             elif cls == "deep-link":
                 spec.append({"p": "out/od/inner/lk%d" % j, "k": "l", "target": "../../x"})   # a link inside a linked directory
                 spec.append({"p": nm, "k": "l", "target": up + "../out/od"})
@@ -75,7 +83,8 @@ def gen_cases(tier, seed):
                 bad = True
             classes.add(cls)
         yield {"spec": spec, "driver": driver, "classes": sorted(classes), "bad": bad, "maxchain": maxchain, "fs": "ext4",
-               "args": ["--driver", driver, "-w", str(r.choice([1, 2, 4])), "-r", "-L", "src", "dst"]}
+               "args": ["--driver", driver, "-w", str(r.choice([1, 2, 4]))] + r.choice([[], [], ["--fsync"], ["--no-perms"], ["--gitignore"], ["--reflink", "never"], ["--no-progress"], ["--block-size", "4096"]])
+                       + ["-r", "-L", "src", "dst"]}
 
 
 def resolved_model(root, src):
@@ -103,7 +112,13 @@ def run_case(case):
     res = {"evals": [], "viol": [], "inconc": [], "counters": {}}
     with core.Sandbox(case["fs"], "c13") as sb:
         root = sb.root
-        tree.materialize(root, subst(case["spec"], root))
+        # a small tree on the other filesystem (links may point across devices)
+        tree.materialize(sb.other, [{"p": "xd", "k": "d"}, F("xd/xy", 66, 901), {"p": "xd/xinner", "k": "d"}, F("xd/xinner/xz", 4097, 902), {"p": "xd/xempty", "k": "d"}])
+        spec = subst(case["spec"], root)
+        for e in spec:
+            if e.get("target", "").startswith("@OTHER@"):
+                e["target"] = sb.other + e["target"][len("@OTHER@"):]
+        tree.materialize(root, spec)
         try:
             exp = resolved_model(root, "src")
             resolvable = True
